@@ -148,7 +148,7 @@ pub fn params_for(prop: &str, thorough: bool) -> GenParams {
             p.profile = "C20";
             p.p_misuse = 900;
             p.p_fail = 200;
-            p.p_abort = 0;
+            p.p_abort = 150;
         }
         _ => {}
     }
